@@ -67,7 +67,8 @@ def run_nfkc(ctx):
             must_reject(ctx, "build_host", {"route": "build_host", "cp": cp, "host": h}, guarded(lambda: URL.build(scheme="http", host=h)))
             must_reject(ctx, "build_authority", {"route": "build_authority", "cp": cp, "host": h}, guarded(lambda: URL.build(scheme="http", authority=h)))
             must_reject(ctx, "with_host", {"route": "with_host", "cp": cp, "host": h}, guarded(base.with_host, h))
-        for a in (f"u{c}v@h.com", f"u:p{c}@h.com", f"{c}@h.com:81"):
+        for a in (f"u{c}v@h.com", f"u:p{c}@h.com", f"{c}@h.com:81", f"u{c}v@[::1]", f"u:p{c}@[2001:db8::1]:8080", f"[::1]{c}evil.example", f"trusted.example{c}[::1]",
+                  f"[fe80::1%eth{c}0]", f"x{c}y@[v1.a]", f"[::1]:8{c}0"):
             must_reject(ctx, "ctor_userinfo", {"route": "ctor_userinfo", "cp": cp, "authority": a}, guarded(URL, f"http://{a}/"))
             must_reject(ctx, "build_authority_userinfo", {"route": "build_authority_userinfo", "cp": cp, "authority": a},
                         guarded(lambda: URL.build(scheme="http", authority=a)))
